@@ -26,15 +26,17 @@ type ChildSpec struct {
 }
 
 type ChildOutcome struct {
-	Exit      int
-	TimedOut  bool
-	Signaled  bool
-	Stderr    string // whole, or head and tail of a long one
-	OpenIdx   int    // case begun but not ended (-1 none)
-	OpenCase  json.RawMessage
-	WalLines  int
-	Completed bool // the child wrote its "done" marker
-	Wall      time.Duration
+	Exit     int
+	TimedOut bool
+	Signaled bool
+	// KilledOutside: ended by a signal without any report of the Go runtime (TimedOut is set as well)
+	KilledOutside bool
+	Stderr        string // whole, or head and tail of a long one
+	OpenIdx       int    // case begun but not ended (-1 none)
+	OpenCase      json.RawMessage
+	WalLines      int
+	Completed     bool // the child wrote its "done" marker
+	Wall          time.Duration
 }
 
 var scratch string
@@ -130,6 +132,13 @@ func (c *Ctx) RunChild(spec ChildSpec) ChildOutcome {
 		b = append(append(append([]byte{}, b[:64<<10]...), []byte("\n…\n")...), b[len(b)-(64<<10):]...)
 	}
 	out.Stderr = string(b)
+	if out.Signaled && !out.TimedOut && !strings.Contains(out.Stderr, "panic:") && !strings.Contains(out.Stderr, "fatal error:") && !strings.Contains(out.Stderr, "runtime: ") && !strings.Contains(out.Stderr, "goroutine ") {
+		// killed by a signal and the Go runtime reported nothing: the kill came from outside the process (the
+		// kernel's out-of-memory killer on a loaded machine, an operator). Nothing can be attributed to the code
+		// under test: handled like an expired watchdog (inconclusive for the open case).
+		out.KilledOutside, out.TimedOut = true, true
+		c.Note(fmt.Sprintf("child %s/%s was killed by a signal from outside (no runtime report on stderr); treated like an expired watchdog", spec.Prop, spec.Name))
+	}
 	out.OpenIdx, out.OpenCase, out.WalLines = c.ApplyWAL(wal)
 	if wb, err := os.ReadFile(wal); err == nil {
 		out.Completed = bytes.Contains(wb[max(0, len(wb)-64):], []byte(`"op":"done"`))
